@@ -52,6 +52,14 @@ func runC12(c *Config, r *Report) {
 	c12R8(ic, r)
 	c12R10(ic, r)
 	c12R11(ic, r)
+	c12R13(ic, r)
+	{
+		sub := newReport("C03")
+		c03R4(ic, sub)
+		c03R8(ic, sub)
+		c03R8width(ic, sub)
+		relabel(r, sub, "R12.12")
+	}
 	// R12.9: an identifier is reported as undefined only if the scopes are balanced: a scope left
 	// on the stack keeps the identifiers of a function visible to the code that follows (same
 	// analysis as C01/R01.1, including the path rule: no case leaves before popping its scope).
